@@ -355,9 +355,9 @@ def _get_spline_mat_inv(x: torch.Tensor, bc_type: str):
         pass  # set to be natural
     elif bc_type == "clamped":
         spline_mat[..., 0, :] = 0.
-        spline_mat[..., 0, 0] = 1.
+        spline_mat[..., 0, 0] = dxinv0[..., 0]
         spline_mat[..., -1, :] = 0.
-        spline_mat[..., -1, -1] = 1.
+        spline_mat[..., -1, -1] = dxinv0[..., -1]
         matr[..., 0, :] = 0.
         matr[..., -1, :] = 0.
     elif bc_type == "not-a-knot":
@@ -397,6 +397,15 @@ def _get_spline_mat_inv(x: torch.Tensor, bc_type: str):
         matr[..., -1, -1] -= dxinv00_sq3
     else:
         raise RuntimeError("Unknown boundary condition: %s" % bc_type)
+
+    if bc_type == "not-a-knot":
+        # bring the two boundary rows (entries ~1/dx^2) to the scale of the interior rows (~1/dx)
+        dx_first = x[..., 1:2] - x[..., 0:1]
+        dx_last = x[..., -1:] - x[..., -2:-1]
+        spline_mat[..., 0, :] *= dx_first
+        matr[..., 0, :] *= dx_first
+        spline_mat[..., -1, :] *= dx_last
+        matr[..., -1, :] *= dx_last
 
     # solve the matrix inverse
     spline_mat_inv = torch.linalg.solve(spline_mat, matr)
